@@ -53,7 +53,8 @@ impl<'a> GeneratorState<'a> {
                 let c = self.last_included_char.next();
                 c?;
                 let c = c.unwrap();
-                self.last_included_position += 1;
+                // Positions are byte offsets (as loc is): a character may take several bytes
+                self.last_included_position += c.len_utf8();
                 if c == '\n' {
                     self.last_included_line_number += 1;
                     start_of_line = self.last_included_char.clone();
@@ -67,7 +68,8 @@ impl<'a> GeneratorState<'a> {
                     return Some(start_of_line.as_str());
                 }
                 let c = c.unwrap();
-                self.last_included_position += 1;
+                // Positions are byte offsets (as loc is): a character may take several bytes
+                self.last_included_position += c.len_utf8();
                 if c == '\n' {
                     self.last_included_line_number += 1;
                     return Some(
